@@ -90,6 +90,11 @@ CLAIMED = {
    text="errs.is_empty(), the target bit of the returned mask and the success of set_version are each compared with the result of strictly loading the relabelled content; successful set_version must keep the content and produce a strictly valid file, a failed one must change nothing.",
    note="Single-file models; the relabelled text is produced by the harness renderer, not by set_version.",
    ref="DESIGN.md section 3 C17"),
+ 'C09': dict(
+   technique="property-based testing with constructed truth: a generated master document is split over 2-4 files at splittable points (file sets per element), optionally with differently ordered named siblings, and loaded in all orders; oracle = master tree with multiset children and assigned file sets, per-file content, order independence",
+   text="Every load order (all k! for k <= 3) must give a model that equals the master (every element once, the assigned file set on every element), every file written from the merged model must equal the file loaded on its own, and all orders must agree; a rejected merge of consistent views is a violation.",
+   note="Anonymous (non-identifiable) siblings of one kind are kept together and never re-ordered (no merge could match them); siblings are re-ordered per file only below splittable parents.",
+   ref="DESIGN.md section 3 C09"),
 }
 NA_REASON = "check not built yet (construction in progress, see DESIGN.md section 6)"
 
